@@ -37,6 +37,14 @@ fn main() {
         }
         return;
     }
+    if id == "dump-directed" {
+        // debugging aid: write the directed cases of C02 as replay files into a directory
+        std::fs::create_dir_all(&args[2]).unwrap();
+        for (i, c) in props::c02::directed_cases().into_iter().enumerate() {
+            std::fs::write(format!("{}/c02_{i:02}.json", args[2]), serde_json::to_string_pretty(&serde_json::json!({"case": c})).unwrap()).unwrap();
+        }
+        return;
+    }
     if id == "dump-corpus" {
         props::c18::dump_corpus(&args[2]);
         return;
